@@ -182,18 +182,27 @@ def _match(ref, got, dev):
     return False
 
 
-def compare_tol(ref, got, dev):
+def compare_tol(ref, got, dev, undirected=False):
     """Multiset comparison of closed cycles with every point within dev (per coordinate),
-    direction-sensitive, start point free.  -> (ok, same_order)"""
+    direction-sensitive (unless `undirected`: a cycle may also match reversed - diagnostic
+    only), start point free.  -> (ok, same_order)"""
     a = [_as_closed(s, segs) for s, segs in ref]
     b = [_as_closed(s, segs) for s, segs in got]
     if len(a) != len(b):
         return False, False
-    if all(_match(x, y, dev) for x, y in zip(a, b)):
+    if undirected:
+        rev = [_as_closed(*R.reverse_cycle(s, segs)) if segs else [("p", s)] for s, segs in ref]
+
+        def m(i, j):
+            return _match(a[i], b[j], dev) or _match(rev[i], b[j], dev)
+    else:
+        def m(i, j):
+            return _match(a[i], b[j], dev)
+    n = len(a)
+    if all(m(i, i) for i in range(n)):
         return True, True
     # bipartite matching (augmenting paths); contour counts are small
-    n = len(a)
-    adj = [[j for j in range(n) if _match(a[i], b[j], dev)] for i in range(n)]
+    adj = [[j for j in range(n) if m(i, j)] for i in range(n)]
     owner = [None] * n
 
     def try_assign(i, seen):
